@@ -174,6 +174,12 @@ func (c *Compiler) Compile(node ast.Node) (code *Code, err error) {
 	if c.failure != nil {
 		return nil, c.failure
 	}
+	// The operand that selects an attribute name is 16 bits wide
+	for _, code := range c.main.Flatten() {
+		if len(code.names) > math.MaxUint16+1 {
+			return nil, fmt.Errorf("compile error: number of attribute names exceeded limits")
+		}
+	}
 	return c.main, nil
 }
 
